@@ -3,7 +3,7 @@ from vlib import core
 from props import c02gen as sg
 
 PID = "C02"
-ENTRIES = {"cf_model": ("Shell.Entry", "entry_cf_model")}
+ENTRIES = {"cf_model": ("Shell.Entry", "entry_cf_model"), "cf": ("Shell.Entry", "entry_cf")}
 TRUSTED = []
 ASSUMPTIONS = []
 FUEL = 60
@@ -20,7 +20,7 @@ def parse_model(line):
     f = core.dec_line(line)
     if not f or f[0] != "ok":
         return {"kind": f[0] if f else "?"}
-    return {"kind": "ok", "status": f[1], "flow": f[2], "last": f[3], "out": f[4], "leak": f[5] == "1", "bang": f[6] == "1"}
+    return {"kind": "ok", "status": f[1], "flow": f[2], "last": f[3], "out": f[4], "ghost": f[5]}
 
 
 def run(ctx):
